@@ -43,6 +43,12 @@ impl WeightedMean {
         // and
         // http://people.ds.cam.ac.uk/fanf2/hermes/doc/antiforgery/stats.pdf.
         self.weight_sum += weight;
+        // As long as only zero-weight samples were added, the weighted average is
+        // undefined (`mean()` returns NaN). Do not update it with 0/0 = NaN, which
+        // would poison the average for all later samples.
+        if self.weight_sum == 0. {
+            return;
+        }
 
         let prev_avg = self.weighted_avg;
         self.weighted_avg = prev_avg + (weight / self.weight_sum) * (sample - prev_avg);
